@@ -29,6 +29,7 @@ the same tree as the by-name load.
 from __future__ import annotations
 
 import json
+import keyword
 import os
 import random
 import re
@@ -51,7 +52,8 @@ RULE = ("seeded random file trees: 2-3 search paths (+0-2 directories reached th
         "mentioning it in a comment/string) / module file / file+directory / extension-less file / "
         "__init__.pyi-only directory, optionally with a pkg-stubs package; 15% of the trees are built mostly from legacy "
         "namespace portions; sub-packages declare a legacy namespace too in half of the trees; package directories are filled recursively "
-        "(depth<=3) from the names {a,b,sub} in 1-3 forms each (x.py, x.pyi, x/ with and without __init__.py, "
+        "(depth<=3) from the names {a,b,sub} plus 0-2 names per tree that are no identifiers or are keywords but importable "
+        "(hyphen, leading digit, keyword, spaces, punctuation, non-ASCII, __main__, upper-case twin) in 1-3 forms each (x.py, x.pyi, x/ with and without __init__.py, "
         "x.cpython-312-x86_64-linux-gnu.so, x.abi3.so, x.so, x.pyd, x.pyc, x.cpython-312.pyc, x.pyo, extension-less x, "
         "x.txt, x.y.py, x.y.pyi, ...) plus __pycache__, hidden and dotted directories, data files; in half of the trees a "
         "part of one path's entries is repeated in a later path so that equal names of equal form meet across paths. Each "
@@ -80,7 +82,9 @@ REQUIRED_COUNTERS = ["trees_judged", "loaded_modules_checked_against_find_spec",
                      "legacy_namespace_multi_portion_checked", "walker_modules_in_later_portion_checked",
                      "walker_modules_in_later_legacy_portion_checked", "by_file_path_requests", "by_file_path_trees_compared",
                      "by_file_path_toplevel_module_file", "by_file_path_submodule_file", "by_file_path_stub_only_file",
-                     "by_file_path_in_namespace_package", "by_file_path_outside_search_paths", "by_file_path_missing_checked"]
+                     "by_file_path_in_namespace_package", "by_file_path_outside_search_paths", "by_file_path_missing_checked",
+                     "loaded_modules_with_unusual_name_checked", "walker_unusual_names_checked",
+                     "walker_unusual_package_names_checked", "walker_modules_below_unusual_package_checked"]
 EXHAUSTIVE = {"quick": False, "thorough": False}
 ASSUMPTIONS = ["legacy namespace packages: the reference child has no pkg_resources, so every generated declaration reaches "
                "pkgutil.extend_path (directly or in the except-ImportError branch); bare pkg_resources declarations and "
@@ -141,7 +145,7 @@ DECLARATIONS = [
 # generator
 def _content(rng: random.Random, rel: str) -> str:
     if rel.endswith(".py"):
-        return f"WHERE = {rel!r}\n" if rng.random() < 0.75 else ""
+        return f"WHERE = {rel!a}\n" if rng.random() < 0.75 else ""
     if rel.endswith(".pyi"):
         return "WHERE: str\n" + ("STUB_ONLY: int\n" if rng.random() < 0.5 else "")
     if rel.endswith((".txt", ".md", ".json", ".typed", ".bak")):
@@ -159,9 +163,9 @@ def _declaration(rng: random.Random, rel: str) -> str:
         text = rng.choice(["# " + line, f"NOTE = {line.strip()!r}\n", '"""Formerly:\n\n    ' + line + '"""\n'])
     r = rng.random()
     if r < 0.25:
-        text = f"# namespace package\nWHERE = {rel!r}\n" + text
+        text = f"# namespace package\nWHERE = {rel!a}\n" + text
     elif r < 0.4:
-        text += f"WHERE = {rel!r}\n"
+        text += f"WHERE = {rel!a}\n"
     return text
 
 
@@ -185,11 +189,23 @@ def _pick_forms(rng: random.Random, n: int) -> list[str]:
     return out
 
 
+# Names of files and directories that are not identifiers (or are keywords) yet importable: CPython's path finder joins
+# the name to the directory, pkgutil lists every name without a dot - neither asks whether `import <name>` could be
+# written.  What the reference child really finds decides; this pool only proposes spellings.
+UNUSUAL_NAMES = ["my-plugin", "2fa", "class", "import", "None", "with space", "trail ", " lead", "-dash", "a+b", "x@y", "~tmp",
+                 "$var", "\u00fcn\u00ef", "caf\u00e9-au-lait", "\u65e5\u672c \u8a9e", "\u2603", "A", "__main__", "__dunder__", "a'b", "x=1", "(p)", "%41"]
+_EXTRA_NAMES: tuple = ()        # the unusual names of the tree being generated (set by gen_case)
+
+
+def unusual(component: str) -> bool:
+    return not component.isidentifier() or keyword.iskeyword(component)
+
+
 def gen_dir(rng: random.Random, files: dict, dirs: list, rel: str, depth: int, stubs_only: bool = False,
             legacy_sub: float = 0.0) -> None:
     """Fill directory ``rel`` (already decided to be package-like) with children."""
     present = 0.62 if depth <= 1 else 0.45
-    for name in ("a", "b", "sub"):
+    for name in ("a", "b", "sub") + _EXTRA_NAMES:
         if rng.random() > present:
             continue
         forms = _pick_forms(rng, rng.choice([1, 1, 1, 2, 2, 3]))
@@ -294,6 +310,10 @@ def gen_case(rng: random.Random, perms: int) -> dict:
     style = rng.random()
     # nested legacy namespaces (a sub-package's __init__.py holding the declaration) in a part of the trees only
     legacy_sub = rng.choice([0.0, 0.0, 0.15, 0.4])
+    # 0-2 unusual names join the pool {a, b, sub} of this tree: the same few names in every directory of every search path,
+    # so that they meet as file / package / namespace directory, across portions and at every depth
+    global _EXTRA_NAMES  # noqa: PLW0603
+    _EXTRA_NAMES = tuple(rng.sample(UNUSUAL_NAMES, rng.choice([0, 1, 1, 2])))
     for sp in search:
         if style < 0.3:
             form = rng.choice(["namespace", "namespace", "namespace", "regular", "none", "ns+module"])
@@ -721,6 +741,8 @@ def judge_against_cpython(case: dict, root: str, ref: dict, obs: dict, rec) -> l
             rec.count("compiled_ancestor_not_judged")
             continue
         rec.count("loaded_modules_checked_against_find_spec")
+        if any(unusual(c) for c in name.split(".")[1:]):
+            rec.count("loaded_modules_with_unusual_name_checked")
         gkind = None
         if kind == "compiled":
             # CPython would take a (fake) compiled file for this very name; Griffe has a source / stub / directory instead
@@ -800,6 +822,15 @@ def judge_against_cpython(case: dict, root: str, ref: dict, obs: dict, rec) -> l
     # ---- direction 2: every module the walker finds is loaded at the same dotted path ------------------------------------
     for name, ispkg in ref["walk"]:
         rec.count("walker_modules_checked")
+        comps = name.split(".")[1:]
+        if unusual(comps[-1]):
+            # a name `import` could not spell, yet found by CPython's package walker (and imported by it when a package)
+            rec.count("walker_unusual_names_checked")
+            rec.add_to_set("unusual_names_found_by_walker", comps[-1])
+            if ispkg:
+                rec.count("walker_unusual_package_names_checked")
+        if any(unusual(c) for c in comps[:-1]):
+            rec.count("walker_modules_below_unusual_package_checked")
         desc = specs.get(name) or {}
         kind = ref_kind(desc)
         pdesc = specs.get(name.rsplit(".", 1)[0]) or {}
